@@ -332,8 +332,10 @@ class CommandManager(object):
             self.pause.remove(ident)
             self.paused.discard(ident)
             self.plock.notify()
-            with self.qlock:
-                self.qlock.notify_all()
+        # qlock is taken only after plock is released: the solver takes
+        # them in the order qlock, plock
+        with self.qlock:
+            self.qlock.notify_all()
 
     def get_result(self, lock_id):
         ''' get the result of a previously queued command '''
